@@ -22,6 +22,8 @@ def run(ctx):
     skippers.arms_agree(rep, 'R07.c', prog)
     skippers.struct_loop(rep, 'R07.h', prog)
     skippers.struct_pairing(rep, 'R07.p', prog)
+    skippers.shared_skipper_is_order_neutral(rep, 'R07.a', prog)
+    skippers.binary_arm_reader_accepts_any_bytes(rep, 'R07.c', prog, cg)
     skippers.default_skipper_widths(rep, 'R07.a', prog, cg)
     skippers.depth_budget(rep, 'R07.e', prog, include_unsafe=True)
     skippers.progress(rep, 'R07.g', prog)
